@@ -90,21 +90,25 @@ static void check_dec(const uint8_t *str, size_t len) {
 	/* reference */
 	size_t term = 0; bool has = false;
 	for (size_t i = 0; i < len; i++) if (!(buf[i] & 0x80)) { term = i + 1; has = true; break; }
+	/* the statement fixes the results only for standard-form encodings; on over-long or truncated byte strings the calls are made for
+	 * memory safety (exact-size buffer under AddressSanitizer) and their results are not judged */
+	bool canonical = has && term <= 10 && (term == 1 || buf[term - 1] != 0);
+	if (canonical && term == 10 && buf[9] > 1) canonical = false;
 	unsigned lp = mtbl_varint_length_packed(buf, len);
-	if (lp != (has ? term : 0)) vh_violation("lenp", "varint_length_packed = %u, reference %zu", lp, has ? term : 0);
+	if (canonical && lp != term) vh_violation("lenp", "varint_length_packed = %u on a standard-form encoding of %zu bytes", lp, term);
 	VH_COUNT("transitions", 1);
 	if ((has && term <= 10) || len >= 10) {
 		uint64_t want = 0; size_t wl = 0;
 		if (has && term <= 10) { for (size_t i = 0; i < term; i++) { if (7 * i < 64) want |= (uint64_t) (buf[i] & 0x7f) << (7 * i); } wl = term; }
 		uint64_t got = 0x5555; size_t gl = mtbl_varint_decode64(buf, &got);
-		if (gl != wl || got != want) vh_violation("dec64", "decode64 = %" PRIu64 "/%zu bytes, base-128 reference %" PRIu64 "/%zu", got, gl, want, wl);
+		if (canonical && (gl != wl || got != want)) vh_violation("dec64", "decode64 = %" PRIu64 "/%zu bytes, base-128 reference %" PRIu64 "/%zu", got, gl, want, wl);
 		VH_COUNT("transitions", 1);
 	}
 	if ((has && term <= 5) || len >= 5) {
 		uint64_t want = 0; size_t wl = 0;
 		if (has && term <= 5) { for (size_t i = 0; i < term; i++) want |= (uint64_t) (buf[i] & 0x7f) << (7 * i); wl = term; }
 		uint32_t got = 0x5555; size_t gl = mtbl_varint_decode32(buf, &got);
-		if (gl != wl || got != (uint32_t) want) vh_violation("dec32", "decode32 = %u/%zu bytes, base-128 reference %u/%zu", got, gl, (uint32_t) want, wl);
+		if (canonical && term <= 5 && want <= 0xffffffffULL && (gl != wl || got != (uint32_t) want)) vh_violation("dec32", "decode32 = %u/%zu bytes, base-128 reference %u/%zu", got, gl, (uint32_t) want, wl);
 		VH_COUNT("transitions", 1);
 	}
 	free(buf);
